@@ -14,32 +14,58 @@
                                      validateAllRequiredPartiesSigned (associateSigners,
                                      associateAuthorizations, associateRequiredRoles,
                                      associateAuthorizationsForRoles), validateRolesPresent,
-                                     findAuthzGrantee + getAuthzMessageTypeURLs, isWasmAccount (as a
-                                     flag), validateProvenanceRole, validateSmartContractSigners
-      x/metadata/types/signer_utils.go BuildPartyDetails (for unique parties), GetUsedSigners
+                                     findAuthzGrantee + getAuthzMessageTypeURLs (AuthzCache hit,
+                                     GetAuthorization, Accept, DeleteGrant / SaveGrant, SetAcceptable),
+                                     isWasmAccount (as a flag), validateProvenanceRole,
+                                     validateSmartContractSigners
+      x/metadata/types/signer_utils.go BuildPartyDetails (for unique parties), GetUsedSigners, AuthzCache
+                                     (one per message: UnwrapMetadataContext clears it)
       x/metadata/keeper/scope.go     ValidateAddScopeDataAccess; msg_server.go AddScopeDataAccess (a
                                      message that rewrites the stored scope through SetScope)
       x/metadata/keeper/msg_server.go WriteScope, DeleteScope, UpdateValueOwners, MigrateValueOwner
                                      (signers handed to the bank as transfer agents)
       x/marker/keeper/send_restrictions.go  SendRestrictionFn: the two account-level rules (withdraw
-                                     access among the transfer agents when the sender is a marker;
-                                     deposit access among the agents -- or of the sender when there are
-                                     no agents -- when the receiver is a restricted marker)
-      forked cosmos-sdk x/bank       MsgSend (positive amount, blocked receiver), SendCoins
-                                     (subUnlockedCoins, restriction, addCoins), MintCoins, BurnCoins
+                                     access among the transfer agents when the sender is a marker --
+                                     IN EVERY STATUS of that marker; deposit access among the agents --
+                                     or of the sender when there are no agents -- when the receiver is
+                                     a restricted marker).  The status of the sending marker guards only
+                                     the marker's OWN denom and validateSendDenom looks at the marker of
+                                     the coin's denom; a scope denom is never a marker denom, so neither
+                                     rule reads the status ([mk_status], [mk_forced] are carried as data).
+      x/sanction/keeper/send_restriction.go  a sanctioned sender cannot send (no bypass is ever set)
+      x/quarantine/keeper/send_restriction.go, keeper.go (AddQuarantinedCoins, AcceptQuarantinedFunds,
+                                     SetOptIn/SetOptOut, SetAutoResponse), msg_server.go (OptIn, OptOut,
+                                     Accept, UpdateAutoResponses): a transfer to an opted-in receiver
+                                     without auto-accept for the sender is redirected to the quarantine
+                                     funds holder and recorded per (receiver, sender); Accept releases
+                                     the recorded coins with the quarantine bypass
+      app/app.go                     order of the composed restriction: marker, sanction, quarantine;
+                                     unsanctionable = module accounts + quarantine funds holder; the
+                                     quarantine funds holder is NOT a bank-blocked address
+      forked cosmos-sdk x/bank       MsgSend (positive amount, blocked receiver), MsgMultiSend (one input,
+                                     outputs with valid non-empty coins, blocked receivers,
+                                     InputOutputCoins), SendCoins (subUnlockedCoins, restriction,
+                                     addCoins to the address the restriction returned), MintCoins, BurnCoins
+      forked cosmos-sdk x/authz      Keeper.SaveGrant (one grant per (grantee, granter, type); expiration
+                                     must be after the block time), DeleteGrant (error when absent),
+                                     GetAuthorization (absent when expiration is BEFORE the block time),
+                                     GenericAuthorization.Accept, CountAuthorization.Accept (error when
+                                     <= 0; Delete at 1; otherwise Updated with one use less)
 
-    Assumed about the outside: scope denoms have no marker of their own, no holds/vesting on them,
-    nobody is sanctioned or opted into quarantine (quarantine of a scope token is out of scope, see
-    DESIGN.md C09 limits), authz grants are GenericAuthorizations without expiry (Accept never
-    consumes them), marker status plays no role for foreign denoms.  SendCoins over several denoms is
-    modelled as the restriction evaluated once followed by one move per denom: sdk.Coins has distinct
-    denoms, balances of different denoms are independent and a failure rolls everything back, so the
-    order "subtract all, restrict, add all" of the Go code is unobservable.
+    Assumed about the outside: scope denoms have no marker of their own and no holds/vesting on them;
+    quarantine records have one sender (SendCoins and the one-input MsgMultiSend never produce more);
+    Decline and auto-decline only set a flag that no transfer reads (not modelled).  SendCoins over
+    several denoms is modelled as the restriction evaluated once followed by one move per denom:
+    sdk.Coins has distinct denoms, balances of different denoms are independent and a failure rolls
+    everything back, so the order "subtract all, restrict, add all" of the Go code is unobservable; for
+    the same reason MsgMultiSend is one restricted send per output.
 
-    Accounts, scope ids, spec ids are interned to [N].  The bank is generic: per scope denom a list
-    of (holder, amount) entries with non-zero amount (the SDK deletes zero balances) and a supply in
-    [Z]; "exactly one indivisible token" is therefore a theorem about histories, not built in.
-    A failing operation leaves the state unchanged (tx rollback).  No proofs here. *)
+    Accounts, scope ids, spec ids are interned to [N]; block time is a [Z].  The bank is generic: per
+    scope denom a list of (holder, amount) entries with non-zero amount (the SDK deletes zero
+    balances) and a supply in [Z]; "exactly one indivisible token" is therefore a theorem about
+    histories, not built in.  A failing operation leaves the state unchanged (tx rollback); an authz
+    error (SaveGrant of a decremented count authorization whose expiration equals the block time)
+    fails the message like a missing signature does.  No proofs here. *)
 From Coq Require Import ZArith NArith List Bool.
 Import ListNotations.
 Open Scope Z_scope.
@@ -48,6 +74,8 @@ Definition addr := N.
 Definition sid := N.
 (** The metadata module account (mints, burns). *)
 Definition MODULE : addr := 0%N.
+(** The quarantine module's funds holder. *)
+Definition QHOLD : addr := 11%N.
 
 Inductive kind := KWrite | KUpdate | KMigrate | KDelete | KAddData.
 Definition kind_eqb (a b : kind) : bool :=
@@ -59,7 +87,9 @@ Definition kind_eqb (a b : kind) : bool :=
 Definition kind_urls (k : kind) : list kind :=
   match k with KAddData => [KAddData; KWrite] | _ => [k] end.
 
-Record marker := { mk_restricted : bool; mk_withdraw : list addr; mk_deposit : list addr }.
+(** [mk_status]: 1 proposed, 2 finalized, 3 active, 4 cancelled, 5 destroyed. *)
+Record marker := { mk_restricted : bool; mk_status : N; mk_forced : bool;
+                   mk_withdraw : list addr; mk_deposit : list addr }.
 (** A party: address, role (the PartyType enum value), optional flag. *)
 Definition party := (addr * N * bool)%type.
 Definition p_addr (p : party) : addr := fst (fst p).
@@ -68,6 +98,12 @@ Definition p_opt (p : party) : bool := snd p.
 Definition ROLE_PROVENANCE : N := 8%N.
 (** [sc_data]: the data-access list, as a set of interned addresses. *)
 Record scope := { sc_parties : list party; sc_spec : N; sc_data : list N; sc_rollup : bool }.
+
+(** An authz grant: [g_exp] expiration (block time), [g_left = None] GenericAuthorization,
+    [Some n] CountAuthorization with n uses left. *)
+Record grant := { g_granter : addr; g_grantee : addr; g_kind : kind; g_exp : option Z; g_left : option Z }.
+(** A quarantine record: coins sent by [q_from] to [q_to], held by the funds holder. *)
+Record qrec := { q_to : addr; q_from : addr; q_coins : list (sid * Z) }.
 
 (** Finite maps: association lists, newest binding first. *)
 Fixpoint get {V} (m : list (N * V)) (k : N) : option V :=
@@ -86,25 +122,55 @@ Record state := {
   toks : list (sid * list (addr * Z));       (* bank balances of scope denoms *)
   sups : list (sid * Z);                     (* bank supply of scope denoms *)
   markers : list (addr * marker);
-  grants : list (addr * addr * kind);        (* granter, grantee, message type *)
+  grants : list grant;                       (* the authz store *)
   wasm : list addr;                          (* smart-contract accounts *)
-  blocked : list addr }.                     (* addresses the bank does not let receive funds *)
+  blocked : list addr;                       (* addresses the bank does not let receive funds *)
+  sanctioned : list addr;
+  qopt : list addr;                          (* opted into quarantine *)
+  qauto : list (addr * addr);                (* (receiver, sender) with auto-accept *)
+  qrecs : list qrec;
+  now : Z }.                                 (* block time *)
 
 Definition with_scopes (s : state) v :=
   {| scopes := v; specs := specs s; toks := toks s; sups := sups s; markers := markers s;
-     grants := grants s; wasm := wasm s; blocked := blocked s |}.
+     grants := grants s; wasm := wasm s; blocked := blocked s; sanctioned := sanctioned s;
+     qopt := qopt s; qauto := qauto s; qrecs := qrecs s; now := now s |}.
 Definition with_toks (s : state) v :=
   {| scopes := scopes s; specs := specs s; toks := v; sups := sups s; markers := markers s;
-     grants := grants s; wasm := wasm s; blocked := blocked s |}.
+     grants := grants s; wasm := wasm s; blocked := blocked s; sanctioned := sanctioned s;
+     qopt := qopt s; qauto := qauto s; qrecs := qrecs s; now := now s |}.
 Definition with_sups (s : state) v :=
   {| scopes := scopes s; specs := specs s; toks := toks s; sups := v; markers := markers s;
-     grants := grants s; wasm := wasm s; blocked := blocked s |}.
+     grants := grants s; wasm := wasm s; blocked := blocked s; sanctioned := sanctioned s;
+     qopt := qopt s; qauto := qauto s; qrecs := qrecs s; now := now s |}.
 Definition with_markers (s : state) v :=
   {| scopes := scopes s; specs := specs s; toks := toks s; sups := sups s; markers := v;
-     grants := grants s; wasm := wasm s; blocked := blocked s |}.
+     grants := grants s; wasm := wasm s; blocked := blocked s; sanctioned := sanctioned s;
+     qopt := qopt s; qauto := qauto s; qrecs := qrecs s; now := now s |}.
 Definition with_grants (s : state) v :=
   {| scopes := scopes s; specs := specs s; toks := toks s; sups := sups s; markers := markers s;
-     grants := v; wasm := wasm s; blocked := blocked s |}.
+     grants := v; wasm := wasm s; blocked := blocked s; sanctioned := sanctioned s;
+     qopt := qopt s; qauto := qauto s; qrecs := qrecs s; now := now s |}.
+Definition with_sanctioned (s : state) v :=
+  {| scopes := scopes s; specs := specs s; toks := toks s; sups := sups s; markers := markers s;
+     grants := grants s; wasm := wasm s; blocked := blocked s; sanctioned := v;
+     qopt := qopt s; qauto := qauto s; qrecs := qrecs s; now := now s |}.
+Definition with_qopt (s : state) v :=
+  {| scopes := scopes s; specs := specs s; toks := toks s; sups := sups s; markers := markers s;
+     grants := grants s; wasm := wasm s; blocked := blocked s; sanctioned := sanctioned s;
+     qopt := v; qauto := qauto s; qrecs := qrecs s; now := now s |}.
+Definition with_qauto (s : state) v :=
+  {| scopes := scopes s; specs := specs s; toks := toks s; sups := sups s; markers := markers s;
+     grants := grants s; wasm := wasm s; blocked := blocked s; sanctioned := sanctioned s;
+     qopt := qopt s; qauto := v; qrecs := qrecs s; now := now s |}.
+Definition with_qrecs (s : state) v :=
+  {| scopes := scopes s; specs := specs s; toks := toks s; sups := sups s; markers := markers s;
+     grants := grants s; wasm := wasm s; blocked := blocked s; sanctioned := sanctioned s;
+     qopt := qopt s; qauto := qauto s; qrecs := v; now := now s |}.
+Definition with_now (s : state) v :=
+  {| scopes := scopes s; specs := specs s; toks := toks s; sups := sups s; markers := markers s;
+     grants := grants s; wasm := wasm s; blocked := blocked s; sanctioned := sanctioned s;
+     qopt := qopt s; qauto := qauto s; qrecs := qrecs s; now := v |}.
 
 Definition scope_of (s : state) (d : sid) : option scope :=
   match get (scopes s) d with Some (Some sc) => Some sc | _ => None end.
@@ -116,8 +182,76 @@ Definition marker_of (s : state) (a : addr) : option marker := get (markers s) a
 Definition is_marker (s : state) (a : addr) : bool :=
   match marker_of s a with Some _ => true | None => false end.
 Definition is_wasm (s : state) (a : addr) : bool := mem a (wasm s).
+
+(** ** The authz store *)
+Definition g_is (x y : addr) (k : kind) (g : grant) : bool :=
+  N.eqb (g_granter g) x && N.eqb (g_grantee g) y && kind_eqb (g_kind g) k.
+Definition lookup (st : list grant) (x y : addr) (k : kind) : option grant := find (g_is x y k) st.
+(** GetAuthorization answers nothing when the expiration is BEFORE the block time. *)
+Definition expired (t : Z) (g : grant) : bool :=
+  match g_exp g with Some e => e <? t | None => false end.
+(** Accept answers: always for a generic authorization, with uses left for a count authorization. *)
+Definition live (t : Z) (g : grant) : bool :=
+  negb (expired t g) && match g_left g with None => true | Some n => 0 <? n end.
+(** [usable t st x y k]: at block time [t] the store holds an authorization from granter [x] to
+    grantee [y] for message type [k] that is not expired and that Accept accepts. *)
+Definition usable (t : Z) (st : list grant) (x y : addr) (k : kind) : bool :=
+  match lookup st x y k with Some g => live t g | None => false end.
 Definition has_grant (s : state) (granter grantee : addr) (k : kind) : bool :=
-  existsb (fun g => let '(a, b, k') := g in N.eqb a granter && N.eqb b grantee && kind_eqb k k') (grants s).
+  usable (now s) (grants s) granter grantee k.
+
+(** The first authorization stored under the key, replaced / removed. *)
+Fixpoint st_update (st : list grant) (x y : addr) (k : kind) (new : option grant) : list grant :=
+  match st with
+  | [] => []
+  | g :: r => if g_is x y k g then match new with Some g' => g' :: r | None => r end
+              else g :: st_update r x y k new
+  end.
+
+(** What one message carries through its signer checks: the authz store as updated so far, and the
+    AuthzCache (granter, grantee, message type) of authorizations already accepted for this message. *)
+Record actx := { a_grants : list grant; a_cache : list (addr * addr * kind) }.
+Definition cache_has (c : list (addr * addr * kind)) (x y : addr) (k : kind) : bool :=
+  existsb (fun e => N.eqb (fst (fst e)) x && N.eqb (snd (fst e)) y && kind_eqb (snd e) k) c.
+Definition cached (a : actx) (st : list grant) (x y : addr) (k : kind) : actx :=
+  {| a_grants := st; a_cache := (x, y, k) :: a_cache a |}.
+Definition with_left (g : grant) (n : Z) : grant :=
+  {| g_granter := g_granter g; g_grantee := g_grantee g; g_kind := g_kind g; g_exp := g_exp g; g_left := Some n |}.
+
+(** One (grantee, message type) probe of findAuthzGrantee. *)
+Inductive look := LErr | LNo | LYes (a : actx).
+Definition lookup1 (t : Z) (a : actx) (x y : addr) (k : kind) : look :=
+  if cache_has (a_cache a) x y k then LYes a else
+  match lookup (a_grants a) x y k with
+  | None => LNo
+  | Some g =>
+      if expired t g then LNo else
+      match g_left g with
+      | None => LYes (cached a (a_grants a) x y k)
+      | Some n =>
+          if n <=? 0 then LNo                                        (* Accept errors: ignored *)
+          else if n =? 1 then LYes (cached a (st_update (a_grants a) x y k None) x y k)
+          else if (match g_exp g with Some e => e <=? t | None => false end)
+               then LErr                                             (* SaveGrant: expiration not after the block time *)
+               else LYes (cached a (st_update (a_grants a) x y k (Some (with_left g (n - 1)))) x y k)
+      end
+  end.
+Fixpoint try_kinds (t : Z) (a : actx) (x y : addr) (ks : list kind) : look :=
+  match ks with
+  | [] => LNo
+  | k :: r => match lookup1 t a x y k with LNo => try_kinds t a x y r | other => other end
+  end.
+(** findAuthzGrantee: [None] = error; [Some (None, _)] = nobody; [Some (Some g, a')] = grantee [g]. *)
+Fixpoint find_grantee (t : Z) (a : actx) (granter : addr) (grantees : list addr) (k : kind)
+  : option (option addr * actx) :=
+  match grantees with
+  | [] => Some (None, a)
+  | g :: r => match try_kinds t a granter g (kind_urls k) with
+              | LErr => None
+              | LYes a' => Some (Some g, a')
+              | LNo => find_grantee t a granter r k
+              end
+  end.
 
 (** ** The bank, for one denom's holder list *)
 Definition bal_of (hl : list (addr * Z)) (a : addr) : Z :=
@@ -152,7 +286,7 @@ Definition bank_burn (s : state) (d : sid) (amt : Z) : option state :=
   end.
 
 (** The marker module's send restriction, account-level part, with the transfer agents of the
-    context. *)
+    context.  Nothing here reads [mk_status] or [mk_forced]. *)
 Definition any_in (agents l : list addr) : bool := existsb (fun a => mem a l) agents.
 Definition restrict (mks : list (addr * marker)) (from to : addr) (agents : list addr) : bool :=
   (match get mks from with
@@ -166,46 +300,89 @@ Definition restrict (mks : list (addr * marker)) (from to : addr) (agents : list
    | None => true
    end).
 
-(** One denom moving from one account to another (subUnlockedCoins, then addCoins). *)
-Definition move (s : state) (from to : addr) (d : sid) (amt : Z) : option state :=
-  match bank_sub s from d amt with
-  | Some s1 => Some (bank_add s1 to d amt)
-  | None => None
+(** Quarantine. *)
+Definition is_auto (s : state) (to from : addr) : bool :=
+  existsb (fun e => N.eqb (fst e) to && N.eqb (snd e) from) (qauto s).
+Definition q_is (to from : addr) (r : qrec) : bool := N.eqb (q_to r) to && N.eqb (q_from r) from.
+(** sdk.Coins.Add, one coin at a time: amounts of the same denom are summed. *)
+Fixpoint coin_add (c : list (sid * Z)) (d : sid) (amt : Z) : list (sid * Z) :=
+  match c with
+  | [] => [(d, amt)]
+  | (d', v) :: r => if N.eqb d' d then (d', v + amt) :: r else (d', v) :: coin_add r d amt
   end.
-Fixpoint move_all (s : state) (from to : addr) (ds : list sid) : option state :=
-  match ds with
+Definition coins_add (c new : list (sid * Z)) : list (sid * Z) :=
+  fold_left (fun acc e => coin_add acc (fst e) (snd e)) new c.
+(** AddQuarantinedCoins: add to the record of (to, from) or create it. *)
+Definition add_rec (rs : list qrec) (to from : addr) (coins : list (sid * Z)) : list qrec :=
+  if existsb (q_is to from) rs
+  then map (fun r => if q_is to from r
+                     then {| q_to := to; q_from := from; q_coins := coins_add (q_coins r) coins |} else r) rs
+  else rs ++ [{| q_to := to; q_from := from; q_coins := coins |}].
+(** Where a transfer from [from] addressed to [to] ends up (no quarantine bypass). *)
+Definition quarantines (s : state) (from to : addr) : bool :=
+  negb (N.eqb from to) && negb (N.eqb from QHOLD) && mem to (qopt s) && negb (is_auto s to from).
+Definition qdest (s : state) (from to : addr) : addr := if quarantines s from to then QHOLD else to.
+
+(** The composed send restriction (marker, then sanction, then quarantine): the receiver the bank
+    credits and the state with the quarantine record written.  [qbyp] = quarantine.WithBypass. *)
+Definition apply_restrictions (s : state) (from to : addr) (coins : list (sid * Z)) (agents : list addr)
+  (qbyp : bool) : option (state * addr) :=
+  if negb (restrict (markers s) from to agents) then None else
+  if mem from (sanctioned s) then None else
+  if qbyp || negb (quarantines s from to) then Some (s, to)
+  else Some (with_qrecs s (add_rec (qrecs s) to from coins), QHOLD).
+
+(** sdk.Coins.IsValid: positive amounts, every denom once. *)
+Fixpoint has_dup (l : list N) : bool :=
+  match l with [] => false | a :: r => mem a r || has_dup r end.
+Definition coins_valid (c : list (sid * Z)) : bool :=
+  forallb (fun e => 0 <? snd e) c && negb (has_dup (map fst c)).
+(** subUnlockedCoins / addCoins over a coin list. *)
+Fixpoint sub_coins (s : state) (from : addr) (coins : list (sid * Z)) : option state :=
+  match coins with
   | [] => Some s
-  | d :: r => match move s from to d 1 with Some s1 => move_all s1 from to r | None => None end
+  | (d, amt) :: r => match bank_sub s from d amt with Some s1 => sub_coins s1 from r | None => None end
   end.
-(** SendCoins of [amt] of one denom / of one unit of each of several denoms. *)
-Definition send_one (s : state) (from to : addr) (d : sid) (amt : Z) (agents : list addr) : option state :=
-  if restrict (markers s) from to agents then move s from to d amt else None.
-Definition send_many (s : state) (from to : addr) (ds : list sid) (agents : list addr) : option state :=
-  if restrict (markers s) from to agents then move_all s from to ds else None.
-
-(** ** Signer rules *)
-(** An authorization usable for message type [k] exists from [granter] to [grantee]. *)
-Definition authz (s : state) (granter grantee : addr) (k : kind) : bool :=
-  existsb (has_grant s granter grantee) (kind_urls k).
-Definition find_grantee (s : state) (granter : addr) (grantees : list addr) (k : kind) : option addr :=
-  find (fun g => authz s granter g k) grantees.
-
-(** validateAllRequiredSigned: every required address signed or granted authz to a signer;
-    returns the signers that were used. *)
-Fixpoint all_required_signed (s : state) (req sg : list addr) (k : kind) : option (list addr) :=
-  match req with
-  | [] => Some []
-  | o :: r =>
-      match (if mem o sg then Some o else find_grantee s o sg k), all_required_signed s r sg k with
-      | Some x, Some l => Some (x :: l)
-      | _, _ => None
+Fixpoint add_coins (s : state) (to : addr) (coins : list (sid * Z)) : state :=
+  match coins with
+  | [] => s
+  | (d, amt) :: r => add_coins (bank_add s to d amt) to r
+  end.
+(** SendCoins: subtract, restrict (which may redirect), add. *)
+Definition send (s : state) (from to : addr) (coins : list (sid * Z)) (agents : list addr) (qbyp : bool)
+  : option state :=
+  if negb (coins_valid coins) then None else
+  match sub_coins s from coins with
+  | None => None
+  | Some s0 =>
+      match apply_restrictions s0 from to coins agents qbyp with
+      | Some (s1, to') => Some (add_coins s1 to' coins)
+      | None => None
       end
   end.
+Definition ones (ds : list sid) : list (sid * Z) := map (fun d => (d, 1)) ds.
 
+(** ** Signer rules.  Every check threads the message's [actx]; [None] = the message is rejected. *)
 Definition opt_list {A} (o : option A) : list A := match o with Some a => [a] | None => [] end.
 
 Fixpoint dedup (l : list N) : list N :=
   match l with [] => [] | a :: r => a :: filter (fun b => negb (N.eqb a b)) (dedup r) end.
+
+(** validateAllRequiredSigned: every required address signed or granted authz to a signer;
+    returns the signers that were used. *)
+Fixpoint all_required_signed (t : Z) (req sg : list addr) (k : kind) (a : actx) : option (list addr * actx) :=
+  match req with
+  | [] => Some ([], a)
+  | o :: r =>
+      match (if mem o sg then Some (Some o, a) else find_grantee t a o sg k) with
+      | Some (Some x, a1) =>
+          match all_required_signed t r sg k a1 with
+          | Some (l, a2) => Some (x :: l, a2)
+          | None => None
+          end
+      | _ => None
+      end
+  end.
 
 (** PartyDetails (every party of the scope is "available", hence usable by the spec). *)
 Record pd := { pd_addr : addr; pd_role : N; pd_opt : bool; pd_signer : option addr; pd_used : bool }.
@@ -228,6 +405,27 @@ Fixpoint upd_first {A} (f : A -> option A) (l : list A) : option (list A) :=
               end
   end.
 
+(** associateAuthorizations over the unsigned required parties, in order. *)
+Fixpoint assoc_authz (t : Z) (sg : list addr) (k : kind) (ps : list pd) (a : actx) : option (list pd * actx) :=
+  match ps with
+  | [] => Some ([], a)
+  | d :: r =>
+      match (if negb (pd_opt d) && negb (has_signer d)
+             then match find_grantee t a (pd_addr d) sg k with
+                  | Some (Some g, a1) => Some (with_signer d g false, a1)
+                  | Some (None, a1) => Some (d, a1)
+                  | None => None
+                  end
+             else Some (d, a)) with
+      | Some (d', a1) =>
+          match assoc_authz t sg k r a1 with
+          | Some (l, a2) => Some (d' :: l, a2)
+          | None => None
+          end
+      | None => None
+      end
+  end.
+
 (** associateRequiredRoles: every required role takes the first unused signed party of that role. *)
 Definition assoc_roles (roles : list N) (pds : list pd) : list pd * list N :=
   fold_left (fun (st : list pd * list N) r =>
@@ -237,37 +435,57 @@ Definition assoc_roles (roles : list N) (pds : list pd) : list pd * list N :=
     | None => (ps, miss ++ [r])
     end) roles (pds, []).
 
-(** associateAuthorizationsForRoles: a missing role takes the first unused unsigned party of that
-    role that granted authz to a signer. *)
-Definition assoc_authz_roles (s : state) (sg : list addr) (k : kind) (missing : list N) (pds : list pd)
-  : list pd * bool :=
-  fold_left (fun (st : list pd * bool) r =>
-    let '(ps, bad) := st in
-    match upd_first (fun d => if usable_as r d && negb (has_signer d)
-                              then match find_grantee s (pd_addr d) sg k with
-                                   | Some g => Some (with_signer d g true)
-                                   | None => None
-                                   end
-                              else None) ps with
-    | Some ps' => (ps', bad)
-    | None => (ps, true)
-    end) missing (pds, false).
+(** One missing role: the first unused unsigned party of that role that granted authz to a signer. *)
+Fixpoint role_authz (t : Z) (sg : list addr) (k : kind) (r : N) (ps : list pd) (a : actx)
+  : option (option (list pd) * actx) :=
+  match ps with
+  | [] => Some (None, a)
+  | d :: rest =>
+      if usable_as r d && negb (has_signer d) then
+        match find_grantee t a (pd_addr d) sg k with
+        | None => None
+        | Some (Some g, a1) => Some (Some (with_signer d g true :: rest), a1)
+        | Some (None, a1) =>
+            match role_authz t sg k r rest a1 with
+            | Some (Some l, a2) => Some (Some (d :: l), a2)
+            | Some (None, a2) => Some (None, a2)
+            | None => None
+            end
+        end
+      else match role_authz t sg k r rest a with
+           | Some (Some l, a2) => Some (Some (d :: l), a2)
+           | Some (None, a2) => Some (None, a2)
+           | None => None
+           end
+  end.
+(** associateAuthorizationsForRoles; the flag says a role stayed unfulfilled. *)
+Fixpoint assoc_authz_roles (t : Z) (sg : list addr) (k : kind) (missing : list N) (ps : list pd) (bad : bool)
+  (a : actx) : option (list pd * bool * actx) :=
+  match missing with
+  | [] => Some (ps, bad, a)
+  | r :: rest =>
+      match role_authz t sg k r ps a with
+      | None => None
+      | Some (Some ps', a1) => assoc_authz_roles t sg k rest ps' bad a1
+      | Some (None, a1) => assoc_authz_roles t sg k rest ps true a1
+      end
+  end.
 
 (** validateAllRequiredPartiesSigned with reqParties = availableParties = the scope's parties. *)
-Definition parties_signed (s : state) (parties : list party) (roles : list N) (sg : list addr) (k : kind)
-  : option (list pd) :=
+Definition parties_signed (t : Z) (parties : list party) (roles : list N) (sg : list addr) (k : kind) (a : actx)
+  : option (list pd * actx) :=
   let p1 := map (fun p => let d := pd_of p in
                           if mem (pd_addr d) sg then with_signer d (pd_addr d) false else d) parties in
-  let p2 := map (fun d => if negb (pd_opt d) && negb (has_signer d)
-                          then match find_grantee s (pd_addr d) sg k with
-                               | Some g => with_signer d g false
-                               | None => d
-                               end
-                          else d) p1 in
-  if existsb (fun d => negb (pd_opt d) && negb (has_signer d)) p2 then None else
-  let '(p3, missing) := assoc_roles roles p2 in
-  let '(p4, bad) := assoc_authz_roles s sg k missing p3 in
-  if bad then None else Some p4.
+  match assoc_authz t sg k p1 a with
+  | None => None
+  | Some (p2, a1) =>
+      if existsb (fun d => negb (pd_opt d) && negb (has_signer d)) p2 then None else
+      let '(p3, missing) := assoc_roles roles p2 in
+      match assoc_authz_roles t sg k missing p3 false a1 with
+      | None => None
+      | Some (p4, bad, a2) => if bad then None else Some (p4, a2)
+      end
+  end.
 Definition used_signers (pds : list pd) : list addr := flat_map (fun d => opt_list (pd_signer d)) pds.
 
 (** validateRolesPresent: every required role has its own party (signed or not). *)
@@ -305,40 +523,55 @@ Definition opt_is (o : option addr) (a : addr) : bool :=
 
 (** The loop of ValidateScopeValueOwnersSigners; returns the used signers. *)
 Fixpoint vo_check (s : state) (existing : list addr) (proposed : option addr) (eff : list addr) (k : kind)
-  : option (list addr) :=
+  (a : actx) : option (list addr * actx) :=
   match existing with
-  | [] => Some []
+  | [] => Some ([], a)
   | e :: r =>
-      if opt_is proposed e then vo_check s r proposed eff k
-      else if mem e eff then option_map (cons e) (vo_check s r proposed eff k)
-      else if is_marker s e then vo_check s r proposed eff k
-      else match find_grantee s e eff k with
-           | Some g => option_map (cons g) (vo_check s r proposed eff k)
-           | None => None
+      if opt_is proposed e then vo_check s r proposed eff k a
+      else if mem e eff then
+        match vo_check s r proposed eff k a with Some (l, a1) => Some (e :: l, a1) | None => None end
+      else if is_marker s e then vo_check s r proposed eff k a
+      else match find_grantee (now s) a e eff k with
+           | Some (Some g, a1) =>
+               match vo_check s r proposed eff k a1 with Some (l, a2) => Some (g :: l, a2) | None => None end
+           | _ => None
            end
   end.
 
 (** ValidateScopeValueOwnersSigners: (transfer agents, used signers). *)
 Definition vo_signers (s : state) (existing : list addr) (proposed : option addr) (sg : list addr) (k : kind)
-  : option (list addr * list addr) :=
-  if (match existing with [e] => opt_is proposed e | _ => false end) then Some ([], [])
+  (a : actx) : option (list addr * list addr * actx) :=
+  if (match existing with [e] => opt_is proposed e | _ => false end) then Some ([], [], a)
   else let eff := effective_signers s sg in
-       match vo_check s existing proposed eff k with
-       | Some used => Some (eff, used)
+       match vo_check s existing proposed eff k a with
+       | Some (used, a1) => Some (eff, used, a1)
        | None => None
        end.
 
+(** Every one of [granters] has an authorization for the contract [c]. *)
+Fixpoint all_granted (t : Z) (granters : list addr) (c : addr) (k : kind) (a : actx) : option actx :=
+  match granters with
+  | [] => Some a
+  | x :: r => match find_grantee t a x [c] k with
+              | Some (Some _, a1) => all_granted t r c k a1
+              | _ => None
+              end
+  end.
 (** validateSmartContractSigners. *)
-Fixpoint sc_check (s : state) (used : list addr) (k : kind) (can_wasm : bool) (sg : list addr) : bool :=
+Fixpoint sc_check (s : state) (used : list addr) (k : kind) (can_wasm : bool) (sg : list addr) (a : actx)
+  : option actx :=
   match sg with
-  | [] => true
-  | a :: rest =>
-      if is_wasm s a then
-        if negb can_wasm then false
-        else if mem a used then sc_check s used k true rest
-        else if is_nil rest then false
-        else forallb (fun granter => authz s granter a k) rest && sc_check s used k true rest
-      else sc_check s used k false rest
+  | [] => Some a
+  | x :: rest =>
+      if is_wasm s x then
+        if negb can_wasm then None
+        else if mem x used then sc_check s used k true rest a
+        else if is_nil rest then None
+        else match all_granted (now s) rest x k a with
+             | Some a1 => sc_check s used k true rest a1
+             | None => None
+             end
+      else sc_check s used k false rest a
   end.
 
 Definition opt_addr_eqb (x y : option addr) : bool :=
@@ -358,7 +591,7 @@ Definition set_vo (s : state) (d : sid) (newvo : option addr) (agents : list add
       let s1 := match cur with Some _ => s | None => bank_mint s d 1 end in
       let from := match cur with Some c => c | None => MODULE end in
       let to := match newvo with Some p => p | None => MODULE end in
-      match send_one s1 from to d 1 agents with
+      match send s1 from to [(d, 1)] agents false with
       | None => None
       | Some s2 => match newvo with Some _ => Some s2 | None => bank_burn s2 d 1 end
       end
@@ -378,6 +611,7 @@ Definition set_eqb (l1 l2 : list N) : bool :=
 Definition scope_eqb (a b : scope) : bool :=
   N.eqb (sc_spec a) (sc_spec b) && parties_eqb (sc_parties a) (sc_parties b) &&
   set_eqb (sc_data a) (sc_data b) && Bool.eqb (sc_rollup a) (sc_rollup b).
+
 (** ** Messages *)
 Inductive op :=
 | OWrite (sg : list addr) (d : sid) (parties : list party) (spec : N) (data : list N) (rollup : bool)
@@ -387,19 +621,56 @@ Inductive op :=
 | OMigrate (sg : list addr) (e p : addr)
 | ODelete (sg : list addr) (d : sid)
 | OSend (from to : addr) (d : sid) (amt : Z)            (* bank MsgSend of a scope denom *)
-| OGrant (granter grantee : addr) (k : kind)             (* authz, environment *)
-| ORevoke (granter grantee : addr) (k : kind)
-| OSetMarker (a : addr) (m : marker).                    (* marker access administration, environment *)
+| OMultiSend (from : addr) (outs : list (addr * list sid))  (* bank MsgMultiSend, one unit per listed denom *)
+| OGrant (granter grantee : addr) (k : kind) (exp lft : option Z)    (* authz Keeper.SaveGrant *)
+| ORevoke (granter grantee : addr) (k : kind)            (* authz Keeper.DeleteGrant *)
+| OSetMarker (a : addr) (m : marker)                     (* marker administration, environment *)
+| OSetTime (t : Z)                                       (* a later block *)
+| OSanction (a : addr) | OUnsanction (a : addr)          (* sanction keeper *)
+| OOptIn (a : addr) | OOptOut (a : addr)                 (* quarantine MsgOptIn / MsgOptOut *)
+| OAutoAccept (to from : addr) (on : bool)               (* MsgUpdateAutoResponses: accept / unspecified *)
+| OAccept (to : addr) (froms : list addr) (permanent : bool)   (* quarantine MsgAccept *)
+| ODecline (to : addr) (froms : list addr).              (* quarantine MsgDecline: a flag only *)
+
+Definition actx0 (s : state) : actx := {| a_grants := grants s; a_cache := [] |}.
+(** The message is done: the authz store as the signer checks left it. *)
+Definition commit (s : state) (a : actx) : state := with_grants s (a_grants a).
 
 (** The party / owner signature check of an existing scope for message type [k]; returns the used
     signers. *)
 Definition existing_signed (s : state) (e : scope) (roles : option (list N)) (sg : list addr) (k : kind)
-  : option (list addr) :=
-  if negb (sc_rollup e) then all_required_signed s (party_addrs (sc_parties e)) sg k
+  (a : actx) : option (list addr * actx) :=
+  if negb (sc_rollup e) then all_required_signed (now s) (party_addrs (sc_parties e)) sg k a
   else match roles with
-       | None => all_required_signed s (required_addrs (sc_parties e)) sg k
-       | Some rs => option_map used_signers (parties_signed s (sc_parties e) rs sg k)
+       | None => all_required_signed (now s) (required_addrs (sc_parties e)) sg k a
+       | Some rs => match parties_signed (now s) (sc_parties e) rs sg k a with
+                    | Some (pds, a1) => Some (used_signers pds, a1)
+                    | None => None
+                    end
        end.
+
+(** The party part of ValidateWriteScope (skipped when only the value owner changes): the
+    specification exists, its roles are present, PROVENANCE role rule, signatures of the existing
+    scope's parties.  Returns the used signers. *)
+Definition write_parties (s : state) (sg : list addr) (existing : option scope) (prop : scope)
+  (cur vo : option addr) : option (list addr * actx) :=
+  match get (specs s) (sc_spec prop) with
+  | None => None
+  | Some roles =>
+      if negb (roles_present roles (sc_parties prop)) then None else
+      if negb (prov_ok s (sc_parties prop)) then None else
+      match existing with
+      | Some e =>
+          if negb (sc_rollup e) then
+            (if scope_eqb e prop && opt_addr_eqb cur vo then Some ([], actx0 s)
+             else all_required_signed (now s) (party_addrs (sc_parties e)) sg KWrite (actx0 s))
+          else match parties_signed (now s) (sc_parties e) roles sg KWrite (actx0 s) with
+               | Some (pds, a1) => Some (used_signers pds, a1)
+               | None => None
+               end
+      | None => Some ([], actx0 s)
+      end
+  end.
 
 (** MsgWriteScope: ValidateBasic, ValidateWriteScope, SetScope. *)
 Definition step_write (s : state) sg d parties spec data rollup (vo : option addr) : option state :=
@@ -413,32 +684,19 @@ Definition step_write (s : state) sg d parties spec data rollup (vo : option add
                      | Some e, Some c, Some p => negb (N.eqb c p) && scope_eqb e prop
                      | _, _, _ => false
                      end in
-      let pres :=
-        if only_vo then Some [] else
-        match get (specs s) spec with
-        | None => None
-        | Some roles =>
-            if negb (roles_present roles parties) then None else
-            if negb (prov_ok s parties) then None else
-            match existing with
-            | Some e =>
-                if negb (sc_rollup e) then
-                  (if scope_eqb e prop && opt_addr_eqb cur vo then Some []
-                   else all_required_signed s (party_addrs (sc_parties e)) sg KWrite)
-                else option_map used_signers (parties_signed s (sc_parties e) roles sg KWrite)
-            | None => Some []
-            end
-        end in
-      match pres with
+      match (if only_vo then Some ([], actx0 s) else write_parties s sg existing prop cur vo) with
       | None => None
-      | Some pused =>
-          match vo_signers s (opt_list cur) vo sg KWrite with
+      | Some (pused, a1) =>
+          match vo_signers s (opt_list cur) vo sg KWrite a1 with
           | None => None
-          | Some (agents, used) =>
-              if negb (sc_check s (used ++ pused) KWrite true sg) then None else
-              match (match vo with Some p => set_vo s d (Some p) agents | None => Some s end) with
+          | Some (agents, used, a2) =>
+              match sc_check s (used ++ pused) KWrite true sg a2 with
               | None => None
-              | Some s1 => Some (with_scopes s1 (put (scopes s1) d (Some prop)))
+              | Some a3 =>
+                  match (match vo with Some p => set_vo s d (Some p) agents | None => Some s end) with
+                  | None => None
+                  | Some s1 => Some (commit (with_scopes s1 (put (scopes s1) d (Some prop))) a3)
+                  end
               end
           end
       end
@@ -450,19 +708,22 @@ Definition step_delete (s : state) sg d : option state :=
   match scope_of s d with
   | None => None
   | Some e =>
-      match existing_signed s e (get (specs s) (sc_spec e)) sg KDelete with
+      match existing_signed s e (get (specs s) (sc_spec e)) sg KDelete (actx0 s) with
       | None => None
-      | Some pused =>
+      | Some (pused, a1) =>
           match denom_owner (tok s d) with
           | None => None
           | Some cur =>
-              match vo_signers s (opt_list cur) None sg KDelete with
+              match vo_signers s (opt_list cur) None sg KDelete a1 with
               | None => None
-              | Some (agents, used) =>
-                  if negb (sc_check s (used ++ pused) KDelete true sg) then None else
-                  match set_vo s d None agents with
+              | Some (agents, used, a2) =>
+                  match sc_check s (used ++ pused) KDelete true sg a2 with
                   | None => None
-                  | Some s1 => Some (with_scopes s1 (put (scopes s1) d None))
+                  | Some a3 =>
+                      match set_vo s d None agents with
+                      | None => None
+                      | Some s1 => Some (commit (with_scopes s1 (put (scopes s1) d None)) a3)
+                      end
                   end
               end
           end
@@ -479,22 +740,25 @@ Definition step_adddata (s : state) sg d (da : list N) : option state :=
       if existsb (fun x => mem x (sc_data e)) da then None else
       let ok :=
         if negb (sc_rollup e) then
-          match all_required_signed s (party_addrs (sc_parties e)) sg KAddData with
-          | Some u => sc_check s u KAddData true sg
-          | None => false
+          match all_required_signed (now s) (party_addrs (sc_parties e)) sg KAddData (actx0 s) with
+          | Some (u, a1) => sc_check s u KAddData true sg a1
+          | None => None
           end
         else match get (specs s) (sc_spec e) with
-             | None => false
+             | None => None
              | Some rs =>
-                 match parties_signed s (sc_parties e) rs sg KAddData with
-                 | Some pds => prov_ok s (sc_parties e) && sc_check s (used_signers pds) KAddData true sg
-                 | None => false
+                 match parties_signed (now s) (sc_parties e) rs sg KAddData (actx0 s) with
+                 | Some (pds, a1) =>
+                     if prov_ok s (sc_parties e) then sc_check s (used_signers pds) KAddData true sg a1 else None
+                 | None => None
                  end
              end in
-      if ok then Some (with_scopes s (put (scopes s) d
-                   (Some {| sc_parties := sc_parties e; sc_spec := sc_spec e;
-                            sc_data := sc_data e ++ da; sc_rollup := sc_rollup e |})))
-      else None
+      match ok with
+      | Some a2 => Some (commit (with_scopes s (put (scopes s) d
+                     (Some {| sc_parties := sc_parties e; sc_spec := sc_spec e;
+                              sc_data := sc_data e ++ da; sc_rollup := sc_rollup e |}))) a2)
+      | None => None
+      end
   end.
 
 (** GetScopeValueOwners + AccMDLinks.ValidateForScopes: every id once, every id has a holder. *)
@@ -510,13 +774,15 @@ Fixpoint links_of (s : state) (seen : list sid) (ds : list sid) : option (list (
   end.
 
 (** SetScopeValueOwners: one SendCoins per distinct current holder, in order of first appearance. *)
+Definition group (links : list (addr * sid)) (f : addr) : list sid :=
+  map snd (filter (fun l => N.eqb (fst l) f) links).
 Fixpoint send_groups (s : state) (froms : list addr) (links : list (addr * sid)) (p : addr) (agents : list addr)
   : option state :=
   match froms with
   | [] => Some s
   | f :: r =>
       if N.eqb f p then send_groups s r links p agents else
-      match send_many s f p (map snd (filter (fun l => N.eqb (fst l) f) links)) agents with
+      match send s f p (ones (group links f)) agents false with
       | Some s1 => send_groups s1 r links p agents
       | None => None
       end
@@ -527,10 +793,14 @@ Definition update_core (s : state) sg (links : list (addr * sid)) (p : addr) (k 
   if is_nil links then None else
   if existsb (fun l => N.eqb (fst l) p) links then None else
   let froms := dedup (map fst links) in
-  match vo_signers s froms (Some p) sg k with
+  match vo_signers s froms (Some p) sg k (actx0 s) with
   | None => None
-  | Some (agents, _) =>
-      if mem p (blocked s) then None else send_groups s froms links p agents
+  | Some (agents, _, a1) =>
+      if mem p (blocked s) then None else
+      match send_groups s froms links p agents with
+      | Some s1 => Some (commit s1 a1)
+      | None => None
+      end
   end.
 
 Definition step_update (s : state) sg ds p : option state :=
@@ -551,10 +821,53 @@ Definition step_migrate (s : state) sg e p : option state :=
 Definition step_send (s : state) from to d amt : option state :=
   if amt <=? 0 then None else
   if mem to (blocked s) then None else
-  send_one s from to d amt [].
+  send s from to [(d, amt)] [] false.
 
-Definition grant_eqb (g : addr * addr * kind) a b k : bool :=
-  let '(a', b', k') := g in N.eqb a' a && N.eqb b' b && kind_eqb k' k.
+(** MsgMultiSend with one unit of every listed denom per output (InputOutputCoins: the input is
+    debited first -- its coins are the sum of the outputs -- then every output is restricted and
+    credited in order). *)
+Fixpoint deliver (s : state) (from : addr) (outs : list (addr * list sid)) : option state :=
+  match outs with
+  | [] => Some s
+  | (to, ds) :: r => match apply_restrictions s from to (ones ds) [] false with
+                     | Some (s1, to') => deliver (add_coins s1 to' (ones ds)) from r
+                     | None => None
+                     end
+  end.
+Definition step_multisend (s : state) from (outs : list (addr * list sid)) : option state :=
+  if is_nil outs then None else
+  if existsb (fun o => is_nil (snd o) || has_dup (snd o)) outs then None else
+  if existsb (fun o => mem (fst o) (blocked s)) outs then None else
+  match sub_coins s from (flat_map (fun o => ones (snd o)) outs) with
+  | Some s0 => deliver s0 from outs
+  | None => None
+  end.
+
+(** Quarantine MsgAccept: every record to [to] from one of [froms] is released and removed. *)
+Fixpoint release_all (s : state) (to : addr) (rs : list qrec) : option state :=
+  match rs with
+  | [] => Some s
+  | r :: rest => match send s QHOLD to (q_coins r) [] true with
+                 | Some s1 => release_all s1 to rest
+                 | None => None
+                 end
+  end.
+Definition accepted (to : addr) (froms : list addr) (r : qrec) : bool :=
+  N.eqb (q_to r) to && mem (q_from r) froms.
+Definition set_auto (l : list (addr * addr)) (to from : addr) (on : bool) : list (addr * addr) :=
+  let rest := filter (fun e => negb (N.eqb (fst e) to && N.eqb (snd e) from)) l in
+  if on then (to, from) :: rest else rest.
+Definition step_accept (s : state) to froms (permanent : bool) : option state :=
+  if is_nil froms then None else
+  let hit := filter (accepted to froms) (qrecs s) in
+  let rest := filter (fun r => negb (accepted to froms r)) (qrecs s) in
+  match release_all (with_qrecs s rest) to hit with
+  | None => None
+  | Some s1 =>
+      Some (if permanent
+            then with_qauto s1 (fold_left (fun l f => set_auto l to f true) froms (qauto s1))
+            else s1)
+  end.
 
 Definition step_opt (s : state) (o : op) : option state :=
   match o with
@@ -564,9 +877,26 @@ Definition step_opt (s : state) (o : op) : option state :=
   | OMigrate sg e p => step_migrate s sg e p
   | ODelete sg d => step_delete s sg d
   | OSend from to d amt => step_send s from to d amt
-  | OGrant a b k => Some (with_grants s ((a, b, k) :: grants s))
-  | ORevoke a b k => Some (with_grants s (filter (fun g => negb (grant_eqb g a b k)) (grants s)))
-  | OSetMarker a m => Some (with_markers s (put (markers s) a m))
+  | OMultiSend from outs => step_multisend s from outs
+  | OGrant x y k exp lft =>
+      if (match exp with Some e => e <=? now s | None => false end) then None
+      else Some (with_grants s ({| g_granter := x; g_grantee := y; g_kind := k; g_exp := exp; g_left := lft |}
+                                :: filter (fun g => negb (g_is x y k g)) (grants s)))
+  | ORevoke x y k =>
+      match lookup (grants s) x y k with
+      | Some _ => Some (with_grants s (filter (fun g => negb (g_is x y k g)) (grants s)))
+      | None => None
+      end
+  | OSetMarker a m => if N.eqb a QHOLD then None else Some (with_markers s (put (markers s) a m))
+  | OSetTime t => Some (with_now s t)
+  | OSanction a => if mem a (blocked s) || N.eqb a QHOLD then None
+                   else Some (with_sanctioned s (a :: filter (fun b => negb (N.eqb a b)) (sanctioned s)))
+  | OUnsanction a => Some (with_sanctioned s (filter (fun b => negb (N.eqb a b)) (sanctioned s)))
+  | OOptIn a => Some (with_qopt s (a :: filter (fun b => negb (N.eqb a b)) (qopt s)))
+  | OOptOut a => Some (with_qopt s (filter (fun b => negb (N.eqb a b)) (qopt s)))
+  | OAutoAccept to from on => Some (with_qauto s (set_auto (qauto s) to from on))
+  | OAccept to froms permanent => step_accept s to froms permanent
+  | ODecline to froms => if is_nil froms then None else Some s
   end.
 
 Definition step (s : state) (o : op) : state * bool :=
@@ -577,11 +907,13 @@ Definition run (s : state) (ops : list op) : state := fold_left run_op ops s.
 (** ** What the property talks about *)
 Definition holder (s : state) (d : sid) : option addr := value_owner s d.
 
-(** Who stands behind a message: its Signers, or the sender of a bank send. *)
+(** Who stands behind a message: its Signers, the sender of a bank send, the acceptor of
+    quarantined funds. *)
 Definition signers_of (o : op) : list addr :=
   match o with
   | OWrite sg _ _ _ _ _ _ | OUpdate sg _ _ | OMigrate sg _ _ | ODelete sg _ | OAddData sg _ _ => sg
-  | OSend from _ _ _ => [from]
+  | OSend from _ _ _ | OMultiSend from _ => [from]
+  | OAccept to _ _ => [to]
   | _ => []
   end.
 Definition kind_of (o : op) : option kind :=
@@ -592,26 +924,47 @@ Definition kind_of (o : op) : option kind :=
   | ODelete _ _ => Some KDelete
   | _ => None
   end.
+Definition is_accept (o : op) : bool := match o with OAccept _ _ _ => true | _ => false end.
 
-(** The consent of holder [h] carried by operation [o] in state [s]. *)
+(** The consent of holder [h] carried by operation [o] in state [s]: signature (for a bank send:
+    being the sender); an authz grant of [h] -- stored, not expired at the block time of [s], with a
+    use left -- for this message type to a signer; withdraw access of a signer when [h] is a marker;
+    or [h] is the quarantine funds holder and the operation is the acceptance by the receiver to whom
+    the quarantined transfer was addressed. *)
 Definition consent (s : state) (o : op) (h : addr) : Prop :=
   In h (signers_of o) \/
   (exists k g, kind_of o = Some k /\ In g (signers_of o) /\ has_grant s h g k = true) \/
-  (exists m g, marker_of s h = Some m /\ In g (signers_of o) /\ In g (mk_withdraw m)).
+  (exists m g, marker_of s h = Some m /\ In g (signers_of o) /\ In g (mk_withdraw m)) \/
+  (h = QHOLD /\ is_accept o = true).
 
-(** Deposit permission when the new holder [n] is a restricted marker. *)
+(** Deposit permission when the new holder [n] is a restricted marker (for the release of
+    quarantined funds the sender is the quarantine funds holder). *)
 Definition deposit_ok (s : state) (o : op) (n : addr) : Prop :=
   forall m, marker_of s n = Some m -> mk_restricted m = true ->
-  exists g, In g (signers_of o) /\ In g (mk_deposit m).
+  (exists g, In g (signers_of o) /\ In g (mk_deposit m)) \/
+  (is_accept o = true /\ In QHOLD (mk_deposit m)).
+
+(** The authz store holds one authorization per (granter, grantee, message type) -- its store key. *)
+Definition gkey (g : grant) : addr * addr * kind := (g_granter g, g_grantee g, g_kind g).
+Definition KeyUniq (st : list grant) : Prop := NoDup (map gkey st).
+(** An authorization after one accepted use: a generic one stays, a count authorization loses one
+    use, its last use deletes it. *)
+Definition after_use (g : grant) : option grant :=
+  match g_left g with
+  | None => Some g
+  | Some n => if n =? 1 then None else Some (with_left g (n - 1))
+  end.
 
 (** Well-formed bank and store: per scope denom, either no supply and no balance, or supply one
-    held as one unit by one account, and then the scope exists. *)
+    held as one unit by one account, and then the scope exists; no marker has the quarantine
+    funds holder's address. *)
 Definition BankInv (s : state) : Prop :=
   forall d, (sup s d = 0 /\ tok s d = []) \/ (sup s d = 1 /\ exists h, tok s d = [(h, 1)]).
 Definition TokScope (s : state) : Prop :=
   forall d, tok s d <> [] -> scope_of s d <> None.
-Definition Inv (s : state) : Prop := BankInv s /\ TokScope s.
+Definition Inv (s : state) : Prop := BankInv s /\ TokScope s /\ marker_of s QHOLD = None.
 
-(** A chain without scopes or scope tokens. *)
+(** A chain without scopes or scope tokens, at block time 0, nobody sanctioned or quarantined. *)
 Definition init (sp : list (N * list N)) (mks : list (addr * marker)) (w bl : list addr) : state :=
-  {| scopes := []; specs := sp; toks := []; sups := []; markers := mks; grants := []; wasm := w; blocked := bl |}.
+  {| scopes := []; specs := sp; toks := []; sups := []; markers := mks; grants := []; wasm := w; blocked := bl;
+     sanctioned := []; qopt := []; qauto := []; qrecs := []; now := 0 |}.
